@@ -4,7 +4,7 @@
    Model/C20_Fanout.v.  "History" = any list of operations (any length, any order, any arguments);
    the conditions [guarded .. g h init] restrict histories only by what the chain clock and the
    scheduler guarantee (stated with each theorem). *)
-From Verif Require Import Lib.Base Lib.Sched Model.C20_Bookkeeping Model.C20_Fanout Proofs.C20_Bookkeeping Proofs.C20_Fanout Proofs.C20_Unbounded Model.C20_Jobs Proofs.C20_Jobs Model.C20_Setup Proofs.C20_Setup.
+From Verif Require Import Lib.Base Lib.Sched Model.C20_Bookkeeping Model.C20_Fanout Proofs.C20_Bookkeeping Proofs.C20_Fanout Proofs.C20_Unbounded Model.C20_Jobs Proofs.C20_Jobs Model.C20_Setup Proofs.C20_Setup Model.C20_Requests Proofs.C20_Requests.
 
 (* ---------------------------------------------------------------------------------------------- *)
 (* attested (services/attester/standard): in every history whose attestation jobs start in slot
@@ -319,6 +319,83 @@ Proof. exists [Return 0 false; Return 1 false]. vm_compute. auto. Qed.
 Print Assumptions C20_unblind_tree_refuted.
 
 (* ---------------------------------------------------------------------------------------------- *)
+(* The provider REQUESTS and the context they carry (Model/C20_Requests.v): n providers, any of which
+   may honour its request context (its call comes back once that context has ended) and may never
+   answer by itself; every schedule of returns, sends, receives, the call's deadline, the end of
+   the caller's context and aborted requests, of any length.
+   The `first` strategies hand every request a context of the call itself.  Whenever the call has
+   come back and nothing moves by itself any more: no request is outstanding at a provider that
+   honours its context, no goroutine holds an answer it cannot send, and every goroutine of the
+   call that still exists is a call to a provider that ignores its context (the node's doing, not
+   the strategy's) -- whatever the caller's context does, in particular if it lives for ever. *)
+Theorem C20_requests_end_with_call :
+  forall n cap k t d hon sch, N.of_nat n <= cap ->
+    let s := rrun sch (rinit n cap k t d hon RqCall) in
+    f_coll_done (r_f s) = true -> rquiet s = true ->
+    inflight_hon s = 0 /\ blocked (r_f s) = 0 /\
+    (forall i st, stat_at s i = Some st -> st = C20_Fanout.SDone \/ (st = C20_Fanout.SCall /\ honours s i = false)).
+Proof.
+  intros n cap k t d hon sch Hn s Hc Hq.
+  apply (requests_end_with_context n cap k t d hon RqCall sch Hn Hq).
+  apply call_ctx_ends_with_collector; [|exact Hc].
+  destruct (rinv_run n cap k t d hon RqCall sch) as [_ _ H _]. exact H.
+Qed.
+Print Assumptions C20_requests_end_with_call.
+
+(* ... so with nodes that all honour their context a call leaves no goroutine at all behind: any
+   number of calls under one long-lived context leave none *)
+Theorem C20_requests_none_left :
+  forall n cap k t d hon sch, N.of_nat n <= cap ->
+    (forall i, (i < n)%nat -> nth i hon false = true) ->
+    let s := rrun sch (rinit n cap k t d hon RqCall) in
+    f_coll_done (r_f s) = true -> rquiet s = true -> alive s = 0.
+Proof.
+  intros n cap k t d hon sch Hn Hall s Hc Hq.
+  apply (all_honour_alive_zero n cap k t d hon RqCall sch Hn Hall Hq).
+  apply call_ctx_ends_with_collector; [|exact Hc].
+  destruct (rinv_run n cap k t d hon RqCall sch) as [_ _ H _]. exact H.
+Qed.
+Print Assumptions C20_requests_none_left.
+
+(* unblindProposal hands the relays the context it was given (deliberately: a relay that is a little
+   slow is not to be cancelled): a relay that never answers keeps its goroutine while that context
+   lives; once it has ended, the same holds as above. *)
+Theorem C20_unblind_requests_end_with_caller :
+  forall n cap k t d hon sch, N.of_nat n <= cap ->
+    let s := rrun sch (rinit n cap k t d hon RqCaller) in
+    r_caller_done s = true -> rquiet s = true ->
+    inflight_hon s = 0 /\ blocked (r_f s) = 0 /\
+    (forall i st, stat_at s i = Some st -> st = C20_Fanout.SDone \/ (st = C20_Fanout.SCall /\ honours s i = false)).
+Proof.
+  intros n cap k t d hon sch Hn s Hc Hq.
+  apply (requests_end_with_context n cap k t d hon RqCaller sch Hn Hq).
+  subst s. unfold req_done. destruct (rinv_run n cap k t d hon RqCaller sch) as [_ _ H _]. rewrite H. exact Hc.
+Qed.
+Print Assumptions C20_unblind_requests_end_with_caller.
+
+(* A `first` strategy that hands its requests the CALLER's context instead (the requests are no
+   longer cancelled when the first answer arrives or the deadline passes): one node answers, the
+   other never does but would return at once if told to; the call has come back, nothing moves, the
+   caller's context lives -- and the request (with its goroutine) is still there, and stays there
+   under every further schedule in which the caller's context does not end and the node does not
+   answer: one goroutine per call and silent node for as long as the process runs.  The same with
+   the deadline instead of an answer. *)
+Theorem C20_requests_caller_context_refuted :
+  let s1 := rrun [RBase (Return 1 true); RBase (Send 1); RBase Recv] (rinit 2 2 1 true false [true; false] RqCaller) in
+  let s2 := rrun [RBase Timeout] (rinit 2 2 1 true false [true; true] RqCaller) in
+  (rquiet s1 = true /\ f_coll_done (r_f s1) = true /\ f_recvd (r_f s1) = 1 /\ r_caller_done s1 = false /\ inflight_hon s1 = 1 /\ alive s1 = 1) /\
+  (rquiet s2 = true /\ f_coll_done (r_f s2) = true /\ r_caller_done s2 = false /\ inflight_hon s2 = 2 /\ alive s2 = 2) /\
+  (forall sch, Forall (fun a => a <> RCallerEnd /\ forall ok, a <> RBase (Return 0 ok)) sch ->
+     stat_at (rrun sch s1) 0 = Some C20_Fanout.SCall /\ r_caller_done (rrun sch s1) = false).
+Proof.
+  split; [|split].
+  - vm_compute. repeat split; reflexivity.
+  - vm_compute. repeat split; reflexivity.
+  - intros sch H. apply caller_ctx_request_stays; try reflexivity. exact H.
+Qed.
+Print Assumptions C20_requests_caller_context_refuted.
+
+(* ---------------------------------------------------------------------------------------------- *)
 (* Non-vacuity: a history satisfying every condition at once, with a skipped epoch, a failed
    attestation, a reorg refresh that withdraws a job, a silent epoch without head events, messages,
    an aggregation and auctions; the bounds hold and are met with equality for attested. *)
@@ -357,3 +434,16 @@ Example C20_setup_example :
   sguarded false l2 sinit = true /\ srun false l2 sinit = sinit /\
   s_mark (srun false [SBegin; SCall; SStart] sinit) = true.
 Proof. vm_compute. auto. Qed.
+
+(* non-vacuity of the request family: the scenario the harness runs (one node answers, one never
+   does and honours its context, one ignores it and answers late) is a quiet state with the call
+   back after every event, for the strategies (nothing left in flight) and, with the caller's
+   context, for unblinding (the silent relay stays until the caller's context ends) *)
+Example C20_requests_example :
+  let evs := [RvRelease 1 true; RvRelease 2 false] in
+  let s := rscenario (rinit 3 3 1 true false [true; false; false] RqCall) evs in
+  let u := rscenario (rinit 3 3 1 false true [true; false; false] RqCaller) evs in
+  rquiet s = true /\ f_coll_done (r_f s) = true /\ inflight_hon s = 0 /\ alive s = 0 /\
+  rquiet u = true /\ f_coll_done (r_f u) = true /\ inflight_hon u = 1 /\
+  inflight_hon (rev_apply u RvCallerEnd) = 0 /\ alive (rev_apply u RvCallerEnd) = 0.
+Proof. vm_compute. repeat split; reflexivity. Qed.
